@@ -5,7 +5,7 @@ from lib import symx
 LEVEL = 'model_checking'
 MANIFEST = {'category': 'model_checking', 'engine': 'symx+z3',
  'technique': 'exhaustive bounded exploration (symx choose) of libwayland event sequences through the real gdb Plugin (breakpoint stop() methods, real extract over typed fake memory, real ConnectionManager) against a reference connection history',
- 'text': 'Every sequence of <= 3 (quick) / 4 (thorough) events over 2 connection addresses and 2 threads - message sent / received / get_registry in either direction, wl_connection_destroy of a known, an already closed or a never-seen connection, address reuse after destruction - run through the real breakpoints: no exception leaves stop(); the first message on an unknown or closed address opens a new connection with the next name, an empty table and the role get_registry implies; destruction closes exactly the connection at that address and is a no-op otherwise; messages from other threads are recorded normally; every other connection keeps its state. Every recorded message is attributed to an object of its own connection.',
+ 'text': 'Every sequence of <= 3 (quick) / 4 (thorough) events over 2 connection addresses and 2 threads - message sent / received / get_registry in either direction, wl_connection_destroy of a known, an already closed or a never-seen connection, address reuse after destruction - run through the real breakpoints: no exception leaves stop(); the first message on an unknown or closed address opens a new connection with the next name, an empty table and the role get_registry implies; destruction closes exactly the connection at that address and is a no-op otherwise; messages from other threads are recorded normally; every other connection keeps its state. Every recorded message is attributed to an object of its own connection. Two connections (another address, or the same after destruction) each bind the same id to the same or different interfaces and mention it: own table, own interface, nothing leaves stop().',
  'note': 'Exhaustive within the bound; every path is a concrete run of the real plugin over the fake gdb. Trusted: lib/fakegdb, harness/gdbworld.py (frame/variable names as in libwayland).'}
 EXPLANATION = MANIFEST['text']
 ASSUMPTIONS = ['fake gdb frames carry the variables libwayland\'s functions have (closure, target, display, connection)', 'time_now stubbed']
